@@ -58,6 +58,30 @@ def raise_site(exc):
     return (type(exc).__name__, site)
 
 
+class Escaped(Exception):
+    """an exception that escaped from /repo, re-raised with concrete contents only (CrossHair cannot render an
+    exception whose arguments hold symbolic values)"""
+
+    def __init__(self, etype, site, text):
+        Exception.__init__(self, '%s escaped from %s: %s' % (etype, site, text))
+        self.etype, self.site_fn, self.text = etype, site, text
+
+
+def escaped(exc):
+    """call in an `except Exception as exc` block of a harness: returns normally when the raise site is a tolerated
+    known finding, otherwise raises Escaped"""
+    if tolerated(exc):
+        return True
+    etype, site = raise_site(exc)
+    try:
+        from crosshair.tracers import NoTracing  # pylint: disable=import-outside-toplevel
+        with NoTracing():
+            text = traceback.format_tb(exc.__traceback__)[-1].strip().splitlines()[0][:200]
+    except Exception:  # pylint: disable=broad-except
+        text = ''
+    raise Escaped(etype, site, text) from None
+
+
 def tolerated(exc):
     """True when the escaping exception is at a raise site listed as a known finding (rerun mode)"""
     if not ALLOW_SITES:
